@@ -3,7 +3,7 @@
 For each of the ten wrapper-capable operators, input types whose closure argument admits a non-trivial inner
 chain, nesting depth 1-3, inner chains (empty / one / two operators / with a block capture), closing styles
 (explicit `<<<` followed by outer operators, implicit at the end of the branch, implicit at a `~` step boundary
-followed by outer operators).
+followed by outer operators); every third program opens the wrapper with a deferred (`~`) operator.
 """
 from .driver import Program, pack
 from .dsl import *
@@ -190,6 +190,10 @@ def programs(tier, seed):
                         if w is None:
                             continue
                         chain = [w]
+                        # every third program opens its wrapper with a DEFERRED operator (`~X >>> .. <<< rest`): the wrapper then
+                        # lives in a later step, and what follows `<<<` must still apply to the outer value
+                        if i % 3 == 1:
+                            w.deferred = True
                         if closing != "implicit_end":
                             allowed = None
                             outer, out = random_chain(ctx, w.out, 1 if kind != "two" else 2)
@@ -218,13 +222,18 @@ def programs(tier, seed):
                             # try macros stop at a step boundary when the value is None/Err (C06), so the plain method
                             # chain is the oracle only for single-step programs
                             macro = "join"
+                        if macro == "join_spawn" and t[0] == "it":
+                            # a lazy iterator returned from a thread must not borrow from the thread's closure; the macro's
+                            # wrapper closures are not `move`, so such programs are ill-typed by the documented semantics
+                            macro = "join"
                         # the macro text is rendered with render_mac2 (partition's typed call)
                         saved = dsl.render_mac
                         try:
                             import jv.gen_c01 as g1
                             g1.render_mac = render_mac2
-                            prog = build(pid, macro, ctx, inp, chain, final_t, group="wrap %s" % tok,
-                                         extra_desc=dict(wrapper=tok, depth=depth, inner=kind, closing=closing))
+                            # (a single-branch spawn macro spawns nothing: make the wrapper branch the second of two)
+                            prog = build(pid, macro, ctx, inp, chain, final_t, group="wrap %s" % tok, second_branch=(macro == "join_spawn"),
+                                         extra_desc=dict(wrapper=tok, depth=depth, inner=kind, closing=closing, wrapper_deferred=w.deferred))
                         finally:
                             g1.render_mac = saved
                         prog.role = dict(kind=macro, wrapper=tok)
